@@ -3,6 +3,8 @@ package sim
 import (
 	"fmt"
 	"log"
+	mrand "math/rand"
+	"sync"
 	"reflect"
 	"sort"
 	"strings"
@@ -37,7 +39,34 @@ func SnapshotGlobals(deep bool) *GlobalsSnapshot {
 	// process-wide state of the standard library that a library could (but must not) touch
 	snap.Names = append(snap.Names, "standard library log: default logger's output, flags, prefix")
 	snap.Hashes = append(snap.Hashes, stdLogHash())
+	snap.Names = append(snap.Names, "standard library math/rand: the process-wide source (seeded or drawn from)")
+	snap.Hashes = append(snap.Hashes, stdRandEpoch())
 	return snap
+}
+
+// The process-wide math/rand source cannot be inspected, only drawn from. The harness never
+// uses it for anything else: it seeds it once and keeps a private twin in step, one draw per
+// snapshot. A draw that disagrees means someone else seeded the source or drew from it; the
+// epoch then goes up (and both are re-seeded), which shows as a change of this "variable".
+var (
+	randMu     sync.Mutex
+	randShadow *mrand.Rand
+	randEpoch  uint64
+)
+
+func stdRandEpoch() uint64 {
+	randMu.Lock()
+	defer randMu.Unlock()
+	if randShadow == nil {
+		mrand.Seed(0x5eed5eed) //nolint:staticcheck // deliberate: the global source is the thing under watch
+		randShadow = mrand.New(mrand.NewSource(0x5eed5eed))
+	}
+	if mrand.Uint64() != randShadow.Uint64() {
+		randEpoch++
+		mrand.Seed(0x5eed5eed + int64(randEpoch)) //nolint:staticcheck
+		randShadow = mrand.New(mrand.NewSource(0x5eed5eed + int64(randEpoch)))
+	}
+	return randEpoch
 }
 
 func stdLogHash() uint64 {
